@@ -393,5 +393,21 @@ pub fn run(tier: &str, seed: u64) -> i32 {
         judge,
         |_, _| {},
     );
+    // wide or-groups: the synthetic column keys of a matrix must never reach the document, whatever
+    // the number of entries per field
+    gen::drive(
+        &mut report,
+        31,
+        if tier == "thorough" { 300 } else { 32 },
+        || (gen::rule_wide_with(vec![129, 255, 256, 257, 300], vec![0, 1, 2, 3, 3]), prop::collection::vec(any::<u16>(), 6)),
+        |(rule, picks): &(crate::spec::RuleSpec, Vec<u16>)| {
+            let mut c = Case::new("c16.wide");
+            c.rules = vec![rule.text()];
+            c.docs = gen::wide_docs(rule, picks);
+            vec![c]
+        },
+        judge,
+        |_, rep| rep.label("wide_or_group_rule"),
+    );
     report.finish()
 }
